@@ -82,6 +82,9 @@ GcdS(a, b) == IF b = 0 THEN a ELSE GcdS(b, a % b)
 RECURSIVE FE(_), FS(_), FD(_), FList(_,_,_)
 FE(e) == CASE e.k = "var" -> <<"var", e.name>>
            [] e.k \in {"acct", "asset", "str"} -> <<e.k, e.v>>
+           \* (a numeral beyond TLC's integers: sign and digits as written, without leading zeros)
+           [] e.k = "num" /\ "lex" \in DOMAIN e /\ Len(e.lex) > 9 ->
+                <<"numbig", IF SubSeq(e.lex, 1, 1) = "-" THEN "-" \o DropZeros(SubSeq(e.lex, 2, Len(e.lex))) ELSE DropZeros(e.lex)>>
            [] e.k = "num" -> <<"num", ToString(NumValOf(e))>>
            \* (a ratio with a numeral beyond TLC's integers: both parts as written, without leading zeros, unreduced)
            [] e.k = "portion" /\ IsLongRatio(PortionLex(e)) -> <<"portionbig", RatioNum(PortionLex(e)), RatioDen(PortionLex(e))>>
